@@ -74,6 +74,13 @@ pub fn rand_retry_after(rng: &mut Rng) -> String {
     }
 }
 
+/// a stored time relative to the first clock reading, in microseconds: normally in the past, one time in six ahead of the
+/// clock (the clock was set back since the value was written)
+fn stored_offset(rng: &mut Rng, span: u64) -> i128 {
+    let d = rng.below(span) as i128;
+    if rng.chance(1, 6) { d } else { -d }
+}
+
 /// the X-Retry-After header of a response of the directed reboot scenario: absent, a small plain number, or any of the odd values
 fn scn_ra(rng: &mut Rng) -> Vec<Value> {
     match rng.below(6) { 0 | 1 => vec![hx(&(rng.below(5000)).to_string())], 2 => vec![hx(&rand_retry_after(rng))], _ => vec![] }
@@ -194,13 +201,13 @@ pub fn gen_sm(rng: &mut Rng, k: &Knobs) -> Value {
     let weird = rng.below(100) < k.weird_storage_pct;
     let mut put = |k: &str, v: Value| storage.push(json!([hx(k), v]));
     let wint = |rng: &mut Rng| -> i128 { *rng.pick(&[0i128, 1, -1, 4294967295, 4294967296, i64::MAX as i128, i64::MIN as i128, 86400_000_000, -86400_000_000, 5]) };
-    if rng.chance(1, 2) { put("last_update_time", if weird { if rng.chance(1,3) { json!({"str": hx("x")}) } else { json!({"int": wint(rng).to_string()}) } } else { json!({"int": ((base_w / 1000) - rng.below(10_000_000_000) as i128).to_string()}) }); }
+    if rng.chance(1, 2) { put("last_update_time", if weird { if rng.chance(1,3) { json!({"str": hx("x")}) } else { json!({"int": wint(rng).to_string()}) } } else { json!({"int": ((base_w / 1000) + stored_offset(rng, 10_000_000_000)).to_string()}) }); }
     if rng.chance(1, 3) { put("server_dictated_poll_interval", if weird { json!({"int": wint(rng).to_string()}) }
                                else { json!({"int": (match rng.below(7) { 0 => 0, 1 => 1, 2 => 86400 * 1_000_000, _ => rng.below(86400) as i128 * 1_000_000 }).to_string()}) }); }
     if rng.chance(1, 3) { put("consecutive_failed_update_checks", if weird { json!({"int": wint(rng).to_string()}) } else { json!({"int": rng.below(5).to_string()}) }); }
     if rng.chance(1, 4) { put("consecutive_failed_install_attempts", if weird { json!({"int": wint(rng).to_string()}) } else { json!({"int": rng.below(5).to_string()}) }); }
     if rng.chance(1, 3) { put("install_plan_id", json!({"str": hx(*rng.pick(&["plan-a", "plan-b"]))}));
-                          if rng.chance(3, 4) { put("update_first_seen_time", json!({"int": ((base_w / 1000) - rng.below(1_000_000_000) as i128).to_string()})); } }
+                          if rng.chance(3, 4) { put("update_first_seen_time", json!({"int": ((base_w / 1000) + stored_offset(rng, 1_000_000_000)).to_string()})); } }
     // the two reboot-bookkeeping keys are generated independently of each other (either may be absent or mistyped)
     if rng.chance(1, 4) { put("update_finish_time", if weird && rng.chance(1, 2) { if rng.chance(1, 2) { json!({"str": hx("soon")}) } else { json!({"int": wint(rng).to_string()}) } }
                                                      else { json!({"int": ((base_w / 1000) + rng.range(-20_000_000, 5_000_000) as i128).to_string()}) }); }
@@ -266,7 +273,7 @@ pub fn gen_sm(rng: &mut Rng, k: &Knobs) -> Value {
     let perform: Vec<Value> = (0..rng.below(5)).map(|_| {
         let progress: Vec<u32> = (0..rng.below(4)).map(|_| *rng.pick(&[0f32.to_bits(), 0.25f32.to_bits(), 0.5f32.to_bits(), 1f32.to_bits(), f32::NAN.to_bits()])).collect();
         let results: Vec<&str> = (0..5).map(|_| *rng.pick(&["installed", "installed", "installed", "deferred", "failed"])).collect();
-        json!({"progress": progress, "results": results, "concurrent": rng.chance(1, 2)})
+        json!({"progress": progress, "results": results, "concurrent": rng.chance(1, 2), "forget": rng.chance(1, 4)})
     }).collect();
     let reboot: Vec<Value> = (0..rng.below(3)).map(|_| json!(rng.chance(3, 4))).collect();
     let stimuli: Vec<Value> = (0..rng.below(3 * k.max_checks + 1)).map(|_| match rng.below(8) {
@@ -321,7 +328,8 @@ pub fn gen_sm(rng: &mut Rng, k: &Knobs) -> Value {
     if !oneshot && rng.below(100) < k.inject_pct {
         let mut idx = 0u64;
         for _ in 0..(1 + rng.below(4)) {
-            idx += rng.below(12);
+            // bursts: every other request follows the previous one at the very next event (several requests queued at once)
+            idx += if rng.chance(1, 2) { 0 } else { rng.below(12) };
             inject.push(json!([idx, if rng.chance(1, 2) { "ondemand" } else { "scheduled" }]));
             idx += 1;
         }
